@@ -278,6 +278,7 @@ def build_cases(tier):
         add(R=R, K=2, C=1)
         add(R=R, K=2, B=2)
         add(R=R, K=1, both=True)
+        add(R=R, K=1, C=2)   # a realization may fail in one constraint column only
         if R <= 3:
             add(R=R, K=2, estimators=("mean", "stddev"), obj_est=(0, 1))
             add(R=R, K=1, C=1, estimators=("stddev", "mean"), obj_est=(1,), con_est=(0,))
@@ -289,6 +290,7 @@ def build_cases(tier):
             add(R=R, K=1, C=1, filters=(sort_filter(0, R - 2, kind="constraint"),), obj_filt=(-1,), con_filt=(0,))
             add(R=R, K=2, filters=(cvar_filter(0.5),), obj_filt=(-1, 0))
             add(R=R, K=1, C=1, filters=(sort_filter(1, R - 1),), obj_filt=(0,), con_filt=(-1,))
+    add(R=3, K=2, filters=(sort_filter(0, 1), cvar_filter(0.5, sort=(1,))), obj_filt=(0, 1))   # two filters, one objective each
     for est in ("mean", "stddev"):
         for base in (1e8, -3e7):
             n += 1
@@ -303,7 +305,7 @@ def build_cases(tier):
 
 
 META = dict(
-    bounds={"quick": "R<=3, K<=2, C<=1, batch<=2, values in [-1000,1000], weights in [0,1] summing to 1",
+    bounds={"quick": "R<=3, K<=2, C<=2, batch<=2, values in [-1000,1000], weights in [0,1] summing to 1",
             "thorough": "R<=4 (mean), R<=3 (stddev, filters), K<=3, C<=2, batch<=2",
             "outside": "larger shapes; floating-point rounding of the results (tolerance 1e-6 relative); overflow"},
     stubs=["evaluator: returns fresh symbols (value + NaN flag) per (row, function); PluginManager is real"],
